@@ -753,3 +753,5 @@ def activate_tt1""", 'C16-R4'),
     ('sector-select-first-packet-not-retried', 'nfc.tag.tt2', "            rsp = self.transceive(sector_select_1)", "            rsp = self.transceive(sector_select_1, retries=0)", 'C16-R3'),
 ]
 MUTANTS = [m for m in MUTANTS if m[4] != 'C16-NONE']
+
+EXPLANATION += ' Round 5: no function of nfc.clf changes an argument in place (a repeated command is sent as it was; unnormalised source, canary); no write command reachable from the handler of its own try in nfc.tag; Type 4 dump bounded by the address limit.'
